@@ -169,7 +169,15 @@ Must(l) ==
   /\ ~(l.neg /\ KindOf(l) \in Unsigned /\ IsZero(l))
   /\ Documented(l)
 
-Exp(l) == IF l.form # "big" /\ ~Denote(l).ok THEN "reject" ELSE Expected(l).exp
+(* why acceptance is left free (reported in the evidence) *)
+Why(l) ==
+  IF l.form # "big" /\ ~Denote(l).ok THEN "zero-denominator"
+  ELSE IF Expected(l).exp \notin {"exact", "nearest"} THEN "does-not-fit"
+  ELSE IF l.form = "bas" /\ AnyUS(l) THEN "underscore-in-based"
+  ELSE IF l.ann = "sfx" /\ l.kind \in IntKinds \ Unsigned THEN "signed-kind-suffix"
+  ELSE IF l.neg /\ KindOf(l) \in Unsigned /\ IsZero(l) THEN "minus-zero-unsigned"
+  ELSE IF ~Documented(l) THEN "undocumented-annotation"
+  ELSE "must"
 
 AnnTxt(l) == IF l.ann = "none" THEN "plain" ELSE l.ann \o ":" \o l.kind
 BaseTxt(l) == IF l.pfx THEN (CASE l.base = 16 -> "0x" [] l.base = 8 -> "0o" [] l.base = 2 -> "0b" [] l.base = 10 -> "0d") ELSE "dec"
@@ -187,7 +195,7 @@ CaseJson(l) ==
              ELSE [exp |-> "reject", n |-> 0, d |-> 1, n2 |-> 0, side |-> "zero-denominator", anc |-> "none"] IN
   [lit |-> l, ok |-> den.ok, re |-> QJ(den.re), im |-> QJ(den.im), kind |-> KindOf(l),
    exp |-> IF den.ok THEN ex.exp ELSE "reject", en |-> ex.n, ed |-> ex.d, en2 |-> ex.n2, eanc |-> ex.anc,
-   must |-> Must(l), sig |-> Sig(l)]
+   must |-> Must(l), why |-> Why(l), sig |-> Sig(l)]
 
 (* ------------------------------------------------------------------ model-level laws *)
 Exact == Done /\ Lit.form # "big"
